@@ -20,6 +20,7 @@ BASE_CFG = {
     "n_tables": (1, 2),
     "final_order": 0.2,
     "ops": {"select_columns": 4, "drop_columns": 3, "project": 4, "window": 4, "natural_join": 4, "map_columns": 2, "rename_columns": 2},
+    "block_table_prob": 0.15,
 }
 
 ROW_ONLY = {"select_rows", "order_rows"}
